@@ -14,6 +14,7 @@ import (
 	"strings"
 
 	"github.com/ethereum/go-ethereum/core/rawdb"
+	"github.com/ethereum/go-ethereum/core/types"
 	"github.com/ethereum/go-ethereum/crypto"
 	"github.com/ethereum/go-ethereum/common"
 	"github.com/ethereum/go-ethereum/ethdb/memorydb"
@@ -171,7 +172,7 @@ func run(c Sx) Result {
 		maxKeys = max(maxKeys, len(ref))
 	}
 	var obs SL
-	var fails []string
+	var fails, known []string
 	res := Result{}
 	tag := map[string]bool{}
 	nval, nerr, nabs := 0, 0, 0
@@ -260,6 +261,11 @@ func run(c Sx) Result {
 				tag["emptytrie"] = true
 			}
 			switch {
+			case err != nil && len(ref) == 0 && t.Hash() == types.EmptyRootHash && len(ps) == 0 &&
+				strings.HasPrefix(err.Error(), "proof node 0 ") && strings.HasSuffix(err.Error(), "missing"):
+				// recorded finding: Prove on an empty trie emits no node and VerifyProof(EmptyRootHash, ..)
+				// rejects the empty proof instead of returning (nil, nil)
+				known = append(known, fmt.Sprintf("C08-empty-trie-proof: q%d: empty trie, genuine (empty) proof of absent key %x rejected: %v", qi, key, err))
 			case err != nil:
 				fail("q%d: genuine proof of %x rejected: %v", qi, key, err)
 			case present && !bytes.Equal(val, truth):
@@ -313,6 +319,12 @@ func run(c Sx) Result {
 		}
 	}
 	res.Obs = L(roots, obs)
+	// the recorded finding is reported last, so that a message starts with its stable
+	// prefix only when nothing else failed
+	if len(known) > 2 {
+		known = known[:2]
+	}
+	fails = append(fails, known...)
 	if len(fails) > 0 {
 		res.Oracle = strings.Join(fails, " | ")
 	}
